@@ -339,7 +339,7 @@ pub fn run(tier: Tier, replay: Option<Value>) -> i32 {
         run.par_cases(tier.pick(3000, 300000), super::threads(), |c| one_case(&run, c));
     }
     run.finish(
-        "generated trees (depth <= 4, names with extensions, upper/lower case, digits, non-ASCII) x sets of 1-4 (one case in twelve: 8-15) exclusion patterns instantiated from the tree: anchored file and directory paths, bare names, '*.ext', '?x', 'd/*/f', '**/n', 'd/**', '[ab]*', '[!a-z]*', 'é*', '/d/*', '/*.ext', '/*/name', 'dir?child' and 'dir[!a]child' (which must not match across the separator), '{a,b}' and '/{a,b}', '**/n/**', '/d/**/n', a name in the other case (must not match), 'c*' and '/c*', '**' glued to a name ('c**', '/c**', '**c'). One tree of 1150 projects, each with a target/ directory, is backed up and listed with the patterns 'target' and '*.o' (more than a thousand directories pruned in one walk). Every 20th case has two directories of 150-400 files, about 95% of which a '*.o'-like pattern excludes, stored in hunks of 33-100 entries. Observed: (a) the paths stored by backup(exclude=E) decoded independently, (b) iter_entries(full backup, exclude=E), (c) the paths created by restore(full backup, exclude=E); all three must equal, below the root, the set given by the rule 'omitted iff the path or an ancestor matches a pattern' evaluated with globs the harness builds from the raw patterns (leading '/' anchors at the root, otherwise any depth). (d) list and restore of the full backup with the exclusions AND a subtree selection S (a directory the rule keeps) must give the part of that set at or below S. Non-trivial = some but not all paths excluded.",
+        "generated trees (depth <= 4, names with extensions, upper/lower case, digits, non-ASCII, names beginning with '#') x sets of 1-4 (one case in twelve: 8-15) exclusion patterns instantiated from the tree: anchored file and directory paths, bare names, '*.ext', '?x', 'd/*/f', '**/n', 'd/**', '[ab]*', '[!a-z]*', 'é*', '/d/*', '/*.ext', '/*/name', 'dir?child' and 'dir[!a]child' (which must not match across the separator), '{a,b}' and '/{a,b}', '**/n/**', '/d/**/n', a name in the other case (must not match), 'c*' and '/c*', '**' glued to a name ('c**', '/c**', '**c'). One tree of 1150 projects, each with a target/ directory, is backed up and listed with the patterns 'target' and '*.o' (more than a thousand directories pruned in one walk). Every 20th case has two directories of 150-400 files, about 95% of which a '*.o'-like pattern excludes, stored in hunks of 33-100 entries. Observed: (a) the paths stored by backup(exclude=E) decoded independently, (b) iter_entries(full backup, exclude=E), (c) the paths created by restore(full backup, exclude=E); all three must equal, below the root, the set given by the rule 'omitted iff the path or an ancestor matches a pattern' evaluated with globs the harness builds from the raw patterns (leading '/' anchors at the root, otherwise any depth). (d) list and restore of the full backup with the exclusions AND a subtree selection S (a directory the rule keeps) must give the part of that set at or below S. Non-trivial = some but not all paths excluded.",
         &["globset's matcher is trusted for what a single glob matches; anchoring, ancestor propagation and the three code paths are what is checked"],
         None,
         &[("observations_compared", 100), ("cases_excluding_some_but_not_all", 30), ("cases_excluding_a_directory_with_children", 10), ("subtree_and_exclude_combinations", 100), ("cases_with_hundreds_of_entries", 20), ("backups_excluding_more_than_1000_directories", 1)],
